@@ -88,6 +88,19 @@ pub struct Sc {
     pub today: String,
     pub hash_seeds: Vec<u64>,
     pub max_read: usize,
+    /// Some: some USD rows carry no rate; the K processes of a mode then run one
+    /// after the other over ONE simulated ~/.acb, so the first downloads from the
+    /// simulated Bank of Canada and the later ones find its cache ("the same
+    /// command twice").
+    #[serde(default)]
+    pub fx: Option<FxSpec>,
+}
+
+#[derive(Clone, Debug, Serialize, Deserialize, PartialEq)]
+pub struct FxSpec {
+    pub cal: crate::fx::Calendar,
+    pub format: crate::fx::JsonFormat,
+    pub published_today: bool,
 }
 
 pub fn d(y: i32, m: u8, day: u8) -> Date {
@@ -145,6 +158,7 @@ pub fn generate(seed: u64, k_seeds: usize) -> Sc {
     let span_days = *r.pick(&[120i64, 365, 500, 800, 1000]);
     let settle_off = *r.pick(&[0i64, 1, 2, 2, 3]);
     let usd = r.chance(1, 2);
+    let fx_mode = usd && r.chance(1, 2);
     let mut symbol_base = vec![];
     let mut all_rows: Vec<(Date, Vec<String>)> = vec![];
 
@@ -295,7 +309,7 @@ pub fn generate(seed: u64, k_seeds: usize) -> Sc {
             }
             if usd && matches!(row[C_ACTION].to_lowercase().as_str(), "buy" | "sell" | "roc") && r.chance(1, 2) {
                 row[C_CUR] = "USD".to_string();
-                row[C_FX] = format!("1.{:04}", r.range(1000, 4500));
+                row[C_FX] = if fx_mode && r.chance(2, 3) { String::new() } else { format!("1.{:04}", r.range(1000, 4500)) };
                 if !row[C_COMM].is_empty() && r.chance(1, 3) {
                     row[C_CCUR] = "CAD".to_string();
                 }
@@ -347,15 +361,25 @@ pub fn generate(seed: u64, k_seeds: usize) -> Sc {
     for _ in 0..k_seeds {
         hash_seeds.push(r.next_u64());
     }
-    Sc {
-        files,
-        modes: ALL_MODES.to_vec(),
-        symbol_base,
-        summarize_before: sum_day.to_string(),
-        today: d(start_year + 4, 6, 15).to_string(),
-        hash_seeds,
-        max_read: *r.pick(&[usize::MAX, usize::MAX, 4096, 512, 7, 1]),
-    }
+    let max_read = *r.pick(&[usize::MAX, usize::MAX, 4096, 512, 7, 1]);
+    let fx = if fx_mode {
+        // a calendar that covers every trade date; today lies after the last one
+        let mut cal = crate::fx::gen_calendar(&mut r);
+        cal.start_year = start_year - 1;
+        cal.n_years = 6;
+        cal.gaps.retain(|(s, _)| {
+            let y: i32 = s[..4].parse().unwrap_or(0);
+            y >= cal.start_year && y < cal.start_year + 6
+        });
+        cal.holidays.retain(|s| {
+            let y: i32 = s[..4].parse().unwrap_or(0);
+            y >= cal.start_year && y < cal.start_year + 6
+        });
+        Some(FxSpec { cal, format: crate::fx::gen_format(&mut r), published_today: r.chance(1, 2) })
+    } else {
+        None
+    };
+    Sc { files, modes: ALL_MODES.to_vec(), symbol_base, summarize_before: sum_day.to_string(), today: d(start_year + 4, 6, 15).to_string(), hash_seeds, max_read, fx }
 }
 
 fn set_aff(row: &mut [String], a: &str, r: &mut Rng) {
@@ -378,17 +402,28 @@ pub struct RunOutput {
     pub panic: Option<String>,
     pub perm: String,
     pub unmodelled: Vec<String>,
+    pub downloads: usize,
 }
 
 pub fn run_once(sc: &Sc, mode: Mode, hash_seed: u64) -> RunOutput {
+    run_once_in(sc, mode, hash_seed, false, None)
+}
+
+pub fn run_once_in(sc: &Sc, mode: Mode, hash_seed: u64, keep_cache: bool, boc: Option<std::sync::Arc<crate::fx::BocData>>) -> RunOutput {
     // Input files live on the simulated disk, so the real File::open/read path runs.
     let names: Vec<String> = sc.files.iter().map(|f| format!("/simfs/in/{}", f.name)).collect();
     with_world(|w| {
+        let cache = if keep_cache { w.fs.disk.list_files(crate::fx::CACHE_DIR) } else { vec![] };
         w.fs.disk = crate::simfs::Disk::new();
+        for (n, data) in cache {
+            w.fs.disk.put_file(&format!("{}/{}", crate::fx::CACHE_DIR, n), &data);
+        }
         for (f, n) in sc.files.iter().zip(&names) {
             w.fs.disk.put_file(n, f.text().as_bytes());
         }
     });
+    let published_today = sc.fx.as_ref().map(|f| f.published_today).unwrap_or(false);
+    let today_d = parse_date(&sc.today);
     let mut env = ProcEnv::new(hash_seed, parse_date(&sc.today));
     env.knobs = Knobs { max_write: usize::MAX, max_read: sc.max_read };
     let symbol_base = sc.symbol_base.clone();
@@ -433,21 +468,30 @@ pub fn run_once(sc: &Sc, mode: Mode, hash_seed: u64) -> RunOutput {
             }
         }
         let err = acb::util::rw::WriteHandle::stderr_write_handle();
-        let loader = acb::fx::io::RateLoader::new_cached_remote_loader(
-            false,
-            Box::new(acb::fx::io::InMemoryRatesCache::new()),
-            Box::new(NoNetwork {}),
-            err.clone(),
-        );
+        let log = std::rc::Rc::new(std::cell::RefCell::new(Vec::new()));
+        let loader = match boc {
+            None => acb::fx::io::RateLoader::new_cached_remote_loader(false, Box::new(acb::fx::io::InMemoryRatesCache::new()), Box::new(NoNetwork {}), err.clone()),
+            Some(data) => acb::fx::io::RateLoader::new_cached_remote_loader(
+                false,
+                Box::new(acb::fx::io::CsvRatesCache::new(std::path::PathBuf::from(crate::fx::CACHE_DIR), err.clone())),
+                Box::new(crate::fx::SimBoc { data, today: today_d, published_today, net_faults: vec![], log: log.clone() }),
+                err.clone(),
+            ),
+        };
         let res = block_on(acb::app::run_acb_app_to_console(readers, init, options, loader, err));
-        (Some(res.is_ok()), perm)
+        let downloads = log.borrow().len();
+        (Some(res.is_ok()), format!("{}#{}", perm, downloads))
     });
     let files = with_world(|w| w.fs.disk.list_files("/simfs/out"));
     let (ok, perm, panic) = match out.result {
         Ok((ok, perm)) => (ok, perm, None),
         Err(p) => (None, String::new(), Some(p)),
     };
-    RunOutput { stdout: out.stdout, stderr: out.stderr, files, ok, panic, perm, unmodelled: out.unmodelled }
+    let (perm, downloads) = match perm.rsplit_once('#') {
+        Some((p, n)) => (p.to_string(), n.parse().unwrap_or(0)),
+        None => (perm, 0),
+    };
+    RunOutput { stdout: out.stdout, stderr: out.stderr, files, ok, panic, perm, unmodelled: out.unmodelled, downloads }
 }
 
 pub struct NoNetwork {}
@@ -735,10 +779,20 @@ impl Engine for C09 {
         let mut digest = fnv64(b"c09");
         let mut nontrivial = false;
         let mut perms: BTreeSet<String> = BTreeSet::new();
+        let boc = sc.fx.as_ref().map(|f| std::sync::Arc::new(crate::fx::BocData::new(&f.cal, &f.format, &[])));
         for mode in &sc.modes {
             let mut first: Option<(u64, RunOutput)> = None;
-            for hs in &sc.hash_seeds {
-                let out = run_once(sc, *mode, *hs);
+            for (hi, hs) in sc.hash_seeds.iter().enumerate() {
+                let out = run_once_in(sc, *mode, *hs, hi > 0 && boc.is_some(), boc.clone());
+                if boc.is_some() {
+                    if hi == 0 && out.downloads > 0 {
+                        st.bump("probe.fx_first_run_downloaded");
+                    }
+                    if hi == 1 && out.downloads == 0 && first.as_ref().map(|f| f.1.downloads > 0).unwrap_or(false) {
+                        st.bump("probe.fx_second_run_served_from_cache");
+                        nontrivial = true;
+                    }
+                }
                 st.bump("sim.processes");
                 digest = fnv64_add(digest, &out.stdout);
                 digest = fnv64_add(digest, &out.stderr);
@@ -844,6 +898,15 @@ impl Engine for C09 {
             s.symbol_base.clear();
             c.push(s);
         }
+        if let Some(fx) = &sc.fx {
+            if !fx.cal.gaps.is_empty() || fx.cal.holidays.len() > 8 {
+                let mut s = sc.clone();
+                let f = s.fx.as_mut().unwrap();
+                f.cal.gaps.clear();
+                f.cal.holidays.truncate(8);
+                c.push(s);
+            }
+        }
         if sc.max_read != usize::MAX {
             let mut s = sc.clone();
             s.max_read = usize::MAX;
@@ -876,14 +939,14 @@ impl Engine for C09 {
         json!({
             "files": sc.files.iter().map(|f| json!({"name": f.name, "csv": f.text()})).collect::<Vec<_>>(),
             "modes": sc.modes, "symbol_base": sc.symbol_base, "summarize_before": sc.summarize_before,
-            "hash_seeds": sc.hash_seeds, "max_read": if sc.max_read == usize::MAX { json!("unlimited") } else { json!(sc.max_read) },
+            "fx_lookups_over_shared_cache": sc.fx.is_some(), "hash_seeds": sc.hash_seeds, "max_read": if sc.max_read == usize::MAX { json!("unlimited") } else { json!(sc.max_read) },
         })
     }
     fn level(&self) -> &'static str {
         "exploration"
     }
     fn rule(&self) -> String {
-        "Seeded portfolio generator (1-4 securities, 1-4 affiliates incl. registered, buys/sells/RoC/manual SfLA/global+per-affiliate splits, CAD and explicit-rate USD, tied cost days, 1-3 files) x 7 output modes x K per-process hash seeds (K=6 quick, 24 thorough); each (input, mode, seed) is one simulated process running the real run_acb_app_to_console. Oracle: stdout bytes and (file name, bytes) of the output directory identical across seeds. evaluations = inputs; distinct_nontrivial = distinct inputs (digest of scenario JSON) whose run reached at least one probe (>=2 securities rendered, global split over >=2 affiliates, ignored notes in >=2 securities, tied yearly-max days, auto-SfL shared by >=2 affiliates, gains in >=2 years, summary with >=2 affiliates/securities).".to_string()
+        "Seeded portfolio generator (1-4 securities, 1-4 affiliates incl. registered, buys/sells/RoC/manual SfLA/global+per-affiliate splits, CAD and explicit-rate USD, tied cost days, securities differing only in case, 1-3 files; in a quarter of the inputs some USD rows carry no rate and the K processes of a mode run one after the other over one simulated ~/.acb, so the first downloads from the simulated Bank of Canada and the others find its cache) x 7 output modes x K per-process hash seeds (K=6 quick, 24 thorough); each (input, mode, seed) is one simulated process running the real run_acb_app_to_console. Oracle: stdout bytes and (file name, bytes) of the output directory identical across seeds. evaluations = inputs; distinct_nontrivial = distinct inputs (digest of scenario JSON) whose run reached at least one probe (>=2 securities rendered, global split over >=2 affiliates, ignored notes in >=2 securities, tied yearly-max days, auto-SfL shared by >=2 affiliates, gains in >=2 years, summary with >=2 affiliates/securities).".to_string()
     }
     fn state_measure(&self) -> String {
         "distinct (mode, exit status, number of output files, stdout size bucket of 2 KiB) tuples".to_string()
@@ -900,7 +963,7 @@ impl Engine for C09 {
         vec!["acb::app::run_acb_app_to_console", "parse_tx_csv", "Tx::try_from", "portfolio::bookkeeping (delta list, superficial loss, costs)", "portfolio::summary", "portfolio::render", "TextWriter/CsvWriter", "std::fs File::open/create/read/write (over SimFs)", "csv, tabled, rust_decimal, time crates"]
     }
     fn stub_components(&self) -> Vec<&'static str> {
-        vec!["entropy (getrandom -> seeded PRNG)", "kernel file system (SimFs, in memory)", "console (fd 1/2 captured)", "clock (simulated today)", "process boundary (thread)", "HTTP transport (no network: every USD row carries an explicit rate)", "async runtime (no-op-waker executor)"]
+        vec!["entropy (getrandom -> seeded PRNG)", "kernel file system (SimFs, in memory)", "console (fd 1/2 captured)", "clock (simulated today)", "process boundary (thread)", "HTTP transport (SimBoC when USD rows carry no rate; otherwise no network)", "async runtime (no-op-waker executor)"]
     }
     fn required_probes(&self, _tier: Tier) -> Vec<&'static str> {
         vec![
@@ -914,6 +977,8 @@ impl Engine for C09 {
             "probe.summary_ge2_securities",
             "probe.hash_seed_changed_probe_set_order",
             "probe.securities_differing_only_in_case",
+            "probe.fx_first_run_downloaded",
+            "probe.fx_second_run_served_from_cache",
         ]
     }
 }
